@@ -4,7 +4,9 @@ from ..gen import KEY_POOL, hx, rng_for, PREFIX
 
 ENGINES = ["memkv", "badger", "tikv", "metrics-badger"]
 # range bounds of the form key+\x00: order facts (C10) lifted to the range read
-EXTRA_PROP_MODULES = [("KB.Props.C03Bounds", "KB.C03Bounds")]
+EXTRA_PROP_MODULES = [("KB.Props.C03Bounds", "KB.C03Bounds"),
+                      # the TiKV adapter iterates at snapshot isolation (shape fact)
+                      ("KB.Props.OrderC11", "KB.OrderC11")]
 
 
 def gen_case(seed, i, engine, n_ops):
@@ -158,6 +160,18 @@ def big_page_case(i, engine):
     return core.ImplOnlyCase("backend", lines, {"engine": engine, "big_page": (n, lim)}, timeout=120)
 
 
+def fat_page_case(i, engine):
+    """a limited range over a handful of LARGE objects (1 MiB each, like big secrets / CRDs): the page holds `limit` keys (or all of
+    them) whatever their size, and `more` says exactly whether the limit cut the result short"""
+    n, lim = [(7, 5), (7, 10), (6, 6)][i % 3]
+    pfx = PREFIX + b"/fp/"
+    a, b = hx(pfx), hx(PREFIX + b"/fp0")
+    last = pfx + (b"%05d" % (min(lim, n) - 1))
+    lines = [hist.cfg_line(engine), "bulk %d %s %s" % (n, hx(pfx), "61" * (1 << 20)), "settle", "rev",
+             "list %s %s 0 %d" % (a, b, lim), "list %s %s 0 %d" % (hx(last + b"\x00"), b, lim), "count %s %s" % (a, b)]
+    return core.ImplOnlyCase("backend", lines, {"engine": engine, "big_page": (n, lim)}, timeout=120)
+
+
 def big_page_oracle(case):
     n, lim = case.meta["big_page"]
     out = case.impl or []
@@ -258,6 +272,7 @@ def check(rep, tier, seed):
     cases += [iterfault_case(seed, i, (ENGINES + ["metrics-memkv"])[i % 5]) for i in range(10 if tier == "quick" else 90)]
     cases += [count_race_case(seed, i, ENGINES[i % 3]) for i in range(9 if tier == "quick" else 180)]
     cases += [big_page_case(i, ["memkv", "badger", "tikv"][i % 3]) for i in range(2 if tier == "quick" else 6)]
+    cases += [fat_page_case(i, ["memkv", "tikv", "badger"][i % 3]) for i in range(2 if tier == "quick" else 6)]
     core.run_cases(cases)
     pick = lambda c: big_page_oracle(c) if c.meta.get("big_page") else count_race_oracle(c) if c.meta.get("count_race") else hist.check_reads(c)
     if core.judge(rep, "C03", cases, pick, shrink_fn=lambda x: not x.meta.get("count_race") and not x.meta.get("big_page") and hist.check_reads(x) is not None):
